@@ -475,7 +475,9 @@ fn check_epoll_table(w: &mut World) {
                         }
                         (None, true) => alarms.push(("C16.exact".into(), "enabled-source-not-registered".into(), format!("fd {} (sub-source {}) of enabled source #{} is not in the epoll table", c.src_raw, k, s.uid))),
                         (Some(i), false) => {
-                            if sysx::fd_is_open(c.src_raw) {
+                            // (the fd number of a dropped child may have been reused by somebody else's fd:
+                            // only an entry still carrying this source's key is a leftover)
+                            if sysx::fd_is_open(c.src_raw) && calloop::verif::same_source(table[i].data as usize, key) && c.child != ChildSt::Gone {
                                 matched[i] = true;
                                 alarms.push(("C16.stale".into(), "entry-of-removed-sub-source".into(), format!("fd {} (sub-source {} of #{}, {:?}) is still registered", c.src_raw, k, s.uid, c.child)));
                             }
